@@ -145,6 +145,10 @@ pub struct ModelSpec {
     pub ts_meshes: u8,
     #[serde(default)]
     pub ts_submeshes: u16,
+    /// physical order of the geometry sections behind the runtime block (section 2l = LOD l vertex, 2l+1 = LOD l
+    /// index); empty = v0, i0, v1, i1, v2, i2. Every section is addressed by its own offset.
+    #[serde(default)]
+    pub section_order: Vec<usize>,
 }
 
 #[derive(Clone, Debug, PartialEq)]
@@ -525,15 +529,27 @@ pub fn encode(m: &ModelSpec) -> Built {
     let data_start = 0x44 + stack_size + runtime_size;
     let gap = m.section_gap as u32;
     let mut lod_recs = [(0u32, 0u32, 0u32, 0u32); 3];
+    let nsec = 2 * m.lods.len();
+    let order: Vec<usize> = if m.section_order.len() == nsec { m.section_order.clone() } else { (0..nsec).collect() };
+    assert!({
+        let mut o = order.clone();
+        o.sort();
+        o == (0..nsec).collect::<Vec<_>>()
+    });
     let mut pos = data_start;
     for l in 0..m.lods.len() {
+        lod_recs[l] = (lod_vertex[l].len() as u32, lod_index[l].len() as u32, 0, 0);
+    }
+    for &sec in &order {
         pos += gap;
-        let voff = pos;
-        pos += lod_vertex[l].len() as u32;
-        pos += gap;
-        let ioff = pos;
-        pos += lod_index[l].len() as u32;
-        lod_recs[l] = (lod_vertex[l].len() as u32, lod_index[l].len() as u32, voff, ioff);
+        let l = sec / 2;
+        if sec % 2 == 0 {
+            lod_recs[l].2 = pos;
+            pos += lod_vertex[l].len() as u32;
+        } else {
+            lod_recs[l].3 = pos;
+            pos += lod_index[l].len() as u32;
+        }
     }
     let runtime = build_runtime(&lod_recs);
     assert_eq!(runtime.len() as u32, runtime_size);
@@ -555,17 +571,18 @@ pub fn encode(m: &ModelSpec) -> Built {
     f.u8(m.lods.len() as u8).u8(m.has_flags.0 as u8).u8(m.has_flags.1 as u8).u8(0);
     assert_eq!(f.len(), 0x44);
     f.bytes(&stack.b).bytes(&runtime);
-    for l in 0..m.lods.len() {
+    for &sec in &order {
+        let l = sec / 2;
         for g in 0..gap {
-            f.u8(0xA0 | (g as u8 & 0xF));
+            f.u8(if sec % 2 == 0 { 0xA0 } else { 0xB0 } | (g as u8 & 0xF));
         }
-        assert_eq!(f.len() as u32, lod_recs[l].2);
-        f.bytes(&lod_vertex[l]);
-        for g in 0..gap {
-            f.u8(0xB0 | (g as u8 & 0xF));
+        if sec % 2 == 0 {
+            assert_eq!(f.len() as u32, lod_recs[l].2);
+            f.bytes(&lod_vertex[l]);
+        } else {
+            assert_eq!(f.len() as u32, lod_recs[l].3);
+            f.bytes(&lod_index[l]);
         }
-        assert_eq!(f.len() as u32, lod_recs[l].3);
-        f.bytes(&lod_index[l]);
     }
     Built { bytes: f.b, expected: Expected { lods: exp_lods, materials: m.materials.clone(), bones: m.bones.clone() }, runtime_size, stack_size }
 }
